@@ -244,6 +244,9 @@ pub struct Connection {
     stats: ConnectionStats,
     /// QUIC version used for the connection.
     version: u32,
+    /// Raw frame bytes to append to the next packet of each space (verification hook)
+    #[cfg(feature = "verif")]
+    verif_inject: [VecDeque<Vec<u8>>; 3],
 }
 
 impl Connection {
@@ -361,6 +364,8 @@ impl Connection {
             rng,
             stats: ConnectionStats::default(),
             version,
+            #[cfg(feature = "verif")]
+            verif_inject: Default::default(),
         };
         if path_validated {
             this.on_path_validated();
@@ -3304,6 +3309,18 @@ impl Connection {
             buf.write(frame::FrameType::PING);
             sent.non_retransmits = true;
             self.stats.frame_tx.ping += 1;
+        }
+
+        // Verification hook: raw frames queued by `verif_inject_frames`
+        #[cfg(feature = "verif")]
+        while let Some(bytes) = self.verif_inject[space_id as usize].pop_front() {
+            if buf.len() + bytes.len() < max_size {
+                buf.extend_from_slice(&bytes);
+                sent.non_retransmits = true;
+            } else {
+                self.verif_inject[space_id as usize].push_front(bytes);
+                break;
+            }
         }
 
         // IMMEDIATE_ACK
